@@ -89,3 +89,23 @@ Proof.
     replace (S0 + S1 - 2 * PI * (jacR a c e * pint_ref P + I1)) with ((S0 - 2 * PI * (jacR a c e * pint_ref P)) + (S1 - 2 * PI * I1)) by ring.
     eapply Rle_trans; [apply Rabs_triang|]. lra.
 Qed.
+
+(* exact tables: exact integrals, on every mesh *)
+Theorem lift_mesh_axisymmetric_exact p d k nodes pts Ns ws f fx fy (mesh : list tri) :
+  (1 <= p)%nat -> (k + 1 <= d)%nat -> PolyG k f fx fy ->
+  TriQuadExact d 0 pts ws ->
+  Forall2 (fun q N => exists Gx Gy, RefIds p 0 nodes q N Gx Gy) pts Ns ->
+  exists Ps : list poly, length Ps = length mesh /\
+    Forall2 (fun t P => pdeg_le d P /\ forall xi, fst (tri_X t xi) * f (tri_X t xi) = peval P xi) mesh Ps /\
+    rsum (map (fun t => rdot (tri_vols_axi Ns nodes ws t) (map f (map (tri_X t) pts))) mesh)
+    = 2 * PI * rsum (map (fun tP => tri_jac (fst tP) * pint_ref (snd tP)) (combine mesh Ps)).
+Proof.
+  intros Hp Hk Hf HQ HN. induction mesh as [|t mesh IH].
+  - exists []. split; [reflexivity|]. split; [constructor|]. cbn [map rsum combine]. ring.
+  - destruct IH as [Ps [L [HF HB]]]. destruct t as [[a c] e].
+    destruct (axisymmetric_integrand_form a c e k f fx fy Hf) as [P [DP EP]].
+    assert (DP' : pdeg_le d P) by (eapply pdeg_mono; [|exact DP]; lia).
+    exists (P :: Ps). split; [cbn; f_equal; exact L|]. split; [constructor; [split; [exact DP' | exact EP] | exact HF]|].
+    pose proof (lift_axisymmetric a c e p d k nodes pts Ns ws f fx fy P Hp Hk Hf HQ HN DP' EP) as HT.
+    cbn [combine map rsum fst snd tri_vols_axi tri_X tri_jac]. rewrite HB, HT. ring.
+Qed.
